@@ -7,9 +7,14 @@ namespace C52Driver
 
 abbrev St := State Nat Nat Nat
 
+abbrev KSt := State Nat Nat MKey
+
 structure DSt where
   table : Array (Array Nat)
   s : St
+  kopts : Array HashOpts := #[]
+  kreqs : Array ReqF := #[]
+  ks : KSt := init 0
 
 def hashOf (t : Array (Array Nat)) (o : Nat) (r : Nat) : Nat := (t.getD o #[]).getD r 0
 
@@ -36,7 +41,7 @@ def extra? (s : String) : Option Extra :=
 
 def ids (l : List (Rec Nat)) : String := if l.isEmpty then "-" else ",".intercalate (l.map (fun r => toString r.id))
 
-def dump (s : St) : String :=
+def dump {K : Type} (s : State Nat Nat K) : String :=
   let fm := if s.flowmap.isEmpty then "-" else ";".intercalate (s.flowmap.map (fun e => ids e.2))
   s!"cnt={count s} fm={fm} rec={ids s.recorded}"
 
@@ -82,23 +87,38 @@ def renderKey (k : MKey) : String :=
      | none => "x"
      | some l => "H" ++ ",".intercalate (l.map (fun p => encB p.1 ++ ":" ++ encOptB p.2)))]
 
+def opts? (bits ip ipp uh : String) : Option HashOpts := do
+  let (ic, ih, ipo) ← match bits.toList with
+    | [a, b, c] => do
+      let a ← bit? (String.singleton a); let b ← bit? (String.singleton b); let c ← bit? (String.singleton c)
+      pure (a, b, c)
+    | _ => none
+  pure { ignoreContent := ic, ignoreHost := ih, ignorePort := ipo,
+         ignoreParams := ← bytesList? ip, ignorePayloadParams := ← bytesList? ipp, useHeaders := ← bytesList? uh }
+
+def reqf? (fs : List String) : Option ReqF :=
+  match fs with
+  | [scheme, method, path, query, host, port, body, mp, ue, hdrs] => do
+    let body ← if body = "N" then some none else (decB body).map some
+    pure { scheme := ← decB scheme, method := ← decB method, path := ← decB path,
+           query := ← pairs? query, host := ← decB host, port := ← port.toNat?,
+           body := body, multipart := ← pairs? mp, urlencoded := ← pairs? ue, headers := ← pairs? hdrs }
+  | _ => none
+
 def keyOp (fs : List String) : Option String :=
   match fs with
-  | [bits, ip, ipp, uh, scheme, method, path, query, host, port, body, mp, ue, hdrs] => do
-    let (ic, ih, ipo) ← match bits.toList with
-      | [a, b, c] => do
-        let a ← bit? (String.singleton a); let b ← bit? (String.singleton b); let c ← bit? (String.singleton c)
-        pure (a, b, c)
-      | _ => none
-    let o : HashOpts := { ignoreContent := ic, ignoreHost := ih, ignorePort := ipo,
-                          ignoreParams := ← bytesList? ip, ignorePayloadParams := ← bytesList? ipp,
-                          useHeaders := ← bytesList? uh }
-    let body ← if body = "N" then some none else (decB body).map some
-    let r : ReqF := { scheme := ← decB scheme, method := ← decB method, path := ← decB path,
-                      query := ← pairs? query, host := ← decB host, port := ← port.toNat?,
-                      body := body, multipart := ← pairs? mp, urlencoded := ← pairs? ue, headers := ← pairs? hdrs }
+  | bits :: ip :: ipp :: uh :: rest => do
+    let o ← opts? bits ip ipp uh
+    let r ← reqf? rest
     pure (renderKey (keyOf o r))
   | _ => none
+
+def emptyOpts : HashOpts := ⟨false, false, false, [], [], []⟩
+def emptyReq : ReqF := ⟨[], [], [], [], [], 0, none, [], [], []⟩
+
+/-- the key function of the k-mode: `keyOf` on the option sets and request shapes defined so far — the model
+    computes the keys itself from the request parts instead of being told the equality classes of `_hash` -/
+def hashK (d : DSt) (o : Nat) (r : Nat) : MKey := keyOf (d.kopts.getD o emptyOpts) (d.kreqs.getD r emptyReq)
 
 def stepLine (d : DSt) (line : String) : DSt × String :=
   let h := hashOf d.table
@@ -125,6 +145,38 @@ def stepLine (d : DSt) (line : String) : DSt × String :=
     | some q, some reuse, some nopop, some kill, some extra =>
       let (s, o) := request h d.s q { reuse := reuse, nopop := nopop, killExtra := kill, extra := extra }
       ({ d with s := s }, showOutcome o ++ " " ++ dump s)
+    | _, _, _, _, _ => (d, "bad-op")
+  | ["kreset"] => ({ d with kopts := #[], kreqs := #[], ks := init 0 }, "ok")
+  | ["kopt", bits, ip, ipp, uh] =>
+    match opts? bits ip ipp uh with
+    | some o => ({ d with kopts := d.kopts.push o }, "ok")
+    | none => (d, "bad-op")
+  | "kdef" :: rest =>
+    match reqf? rest with
+    | some r => ({ d with kreqs := d.kreqs.push r }, "ok")
+    | none => (d, "bad-op")
+  | ["kstart", o] =>
+    match o.toNat? with
+    | some o => ({ d with ks := init o }, "ok")
+    | none => (d, "bad-op")
+  | ["kload", rs] =>
+    match recs? rs with
+    | some rs => let s := loadFlows (hashK d) d.ks rs; ({ d with ks := s }, dump s)
+    | none => (d, "bad-op")
+  | ["kadd", rs] =>
+    match recs? rs with
+    | some rs => let s := addFlows (hashK d) d.ks rs; ({ d with ks := s }, dump s)
+    | none => (d, "bad-op")
+  | ["kclear"] => let s := clear d.ks; ({ d with ks := s }, dump s)
+  | ["kconf", o] =>
+    match o.toNat? with
+    | some o => let s := configure (hashK d) d.ks o; ({ d with ks := s }, dump s)
+    | none => (d, "bad-op")
+  | ["kreq", q, reuse, nopop, kill, extra] =>
+    match q.toNat?, bit? reuse, bit? nopop, bit? kill, extra? extra with
+    | some q, some reuse, some nopop, some kill, some extra =>
+      let (s, o) := request (hashK d) d.ks q { reuse := reuse, nopop := nopop, killExtra := kill, extra := extra }
+      ({ d with ks := s }, showOutcome o ++ " " ++ dump s)
     | _, _, _, _, _ => (d, "bad-op")
   | "key" :: rest =>
     match keyOp rest with
